@@ -94,6 +94,15 @@ CHECKS = {
         note="Trusted: Lean kernel, allowed axioms, the binary-level comparison harness. Not modelled: convertType, the embedded Ruby script (replaced by a stand-in).",
         technique="Lean 4 proof (permutation invariance via uniqueness of sorted permutations; shape by construction) + binary-level differential check + end-to-end arity check",
     ),
+    "C26": dict(
+        category="proof",
+        text="Lean: on the abstract definition (MRB_ARGS macros as extracted, mrb_get_args format string) `tiAccepts (infer d) k = cAccepts d k` for EVERY definition and EVERY k (induction over the format string, arithmetic over the macro counts). "
+             "The model's `infer` is compared with the real ti-c2json binary on generated C sources; end-to-end the generated configuration is loaded by ti and every method is called with 0..6 arguments: a diagnostic on the call's row exactly when the C definition rejects that count. "
+             "The spec capture group was repaired by a fix: commit. Two deviations of ti's binder are recorded as known findings (POST after OPT; REST with BLOCK).",
+        design="DESIGN.md §4 C26",
+        note="Trusted: Lean kernel, allowed axioms, binary-level harness. `tiAccepts` is a specification of ti's arity rule, validated end-to-end outside the two known-finding regions. Not modelled: the regular expressions, the GET_*_ARG heuristics (outside the statement).",
+        technique="Lean 4 proof (arity equivalence for all definitions) + binary-level differential check + end-to-end arity sweep 0..6",
+    ),
 }
 
 PENDING_REASON = "check not built yet in this session (see DESIGN.md §4 for the planned Lean model and theorem); not claimed until its check exists"
